@@ -65,6 +65,8 @@ ERR_KINDS = [
 def glue(spec, kind):
     ty, fn, exp = kind
     spec.parse_err = (ty, fn)
+    if any(v.default and not v.disabled for v in spec.variants):
+        ty = "strum::ParseError"      # with a catch-all variant no error is ever produced; both impls use the standard type
     body = strgen.default_with_fns(spec) + "\n" + spec.render() + "\n"
     body += ("fn _type_check() { let _a: Result<%s, %s> = <%s as std::str::FromStr>::from_str(\"\"); "
              "let _b: Result<%s, %s> = <%s as std::convert::TryFrom<&str>>::try_from(\"\"); }\n"
@@ -84,7 +86,7 @@ def check(run):
     spec_by_unit = {}
     n = 3000 if thorough else 450
     for i in range(n):
-        s = strgen.build(r, "R%d" % i, ["EnumString"], allow_default=False, allow_disabled_default=True)
+        s = strgen.build(r, "R%d" % i, ["EnumString"], allow_default=(i % 10 == 7), allow_disabled_default=True)
         if i % 5 == 4:
             g = c01.glue(s)           # control: standard error
             tag = "std-error"
